@@ -56,25 +56,25 @@ type FileSpec struct {
 }
 
 type ProcSpec struct {
-	Program      string            `json:"program"`
-	Statements   []string          `json:"statements,omitempty"` // shell mode: one Execute per entry
-	Repeats      []int             `json:"repeats,omitempty"`    // shell mode: execute entry i this many times (same syntax tree); default 1
-	CPU          int               `json:"cpu"`
-	WaitTimeoutS float64           `json:"wait_timeout_s"`
-	RetryDelayNs int64             `json:"retry_delay_ns"`
-	Stdin        string            `json:"stdin,omitempty"`
-	StdinB64     string            `json:"stdin_b64,omitempty"`
-	HasStdin     bool              `json:"has_stdin,omitempty"`
-	StdinChunk   int               `json:"stdin_chunk,omitempty"`   // >0: reads return at most this many bytes
-	StdinFailAt  int               `json:"stdin_fail_at,omitempty"` // >0: error after this many bytes
-	StdinEOFAt   int               `json:"stdin_eof_at,omitempty"`  // >0: EOF after this many bytes
-	OutFile      string            `json:"out_file,omitempty"`
-	StdoutFailAt  int              `json:"stdout_fail_at,omitempty"`  // n-th write to standard output fails (ENOSPC)
-	StdoutFailAll bool             `json:"stdout_fail_all,omitempty"` // and all later ones
-	Format       string            `json:"format,omitempty"` // export format flag
-	Flags        map[string]string `json:"flags,omitempty"`  // extra SET @@FLAG values applied through Tx.SetFlag
-	Quiet        bool              `json:"quiet"`
-	Shell        bool              `json:"shell,omitempty"`
+	Program       string            `json:"program"`
+	Statements    []string          `json:"statements,omitempty"` // shell mode: one Execute per entry
+	Repeats       []int             `json:"repeats,omitempty"`    // shell mode: execute entry i this many times (same syntax tree); default 1
+	CPU           int               `json:"cpu"`
+	WaitTimeoutS  float64           `json:"wait_timeout_s"`
+	RetryDelayNs  int64             `json:"retry_delay_ns"`
+	Stdin         string            `json:"stdin,omitempty"`
+	StdinB64      string            `json:"stdin_b64,omitempty"`
+	HasStdin      bool              `json:"has_stdin,omitempty"`
+	StdinChunk    int               `json:"stdin_chunk,omitempty"`   // >0: reads return at most this many bytes
+	StdinFailAt   int               `json:"stdin_fail_at,omitempty"` // >0: error after this many bytes
+	StdinEOFAt    int               `json:"stdin_eof_at,omitempty"`  // >0: EOF after this many bytes
+	OutFile       string            `json:"out_file,omitempty"`
+	StdoutFailAt  int               `json:"stdout_fail_at,omitempty"`  // n-th write to standard output fails (ENOSPC)
+	StdoutFailAll bool              `json:"stdout_fail_all,omitempty"` // and all later ones
+	Format        string            `json:"format,omitempty"`          // export format flag
+	Flags         map[string]string `json:"flags,omitempty"`           // extra SET @@FLAG values applied through Tx.SetFlag
+	Quiet         bool              `json:"quiet"`
+	Shell         bool              `json:"shell,omitempty"`
 }
 
 type Knobs struct {
